@@ -629,6 +629,15 @@ func (a *fnA) classifyCond(cond ssa.Value, truth bool, blk *ssa.BasicBlock) (str
 								return "truncated or overflowing varint", true
 							}
 							if n == "plenccore.ReadVarUint" && ex.Index == 0 {
+								// against what is left of the data - not against a constant: "count == 0",
+								// "length > 1000" turn away encodings the writer produces
+								other := x.Y
+								if stripConv(x.Y) == ssa.Value(ex) {
+									other = x.X
+								}
+								if _, isK := stripConv(other).(*ssa.Const); isK {
+									return "a decoded length/count compared with a constant", false
+								}
 								return "length/count exceeds the remaining bytes (tightness checked by X.tightguard)", true
 							}
 						}
